@@ -197,3 +197,4 @@ package domain
 //@ guarded_by fileController.writers.unopened writers
 //@ guarded_by fileController.readers.files readers
 //@ guarded_by fileReaders.open .
+//@ unshared openFileController the controller is built before it is reachable from any other goroutine
